@@ -53,6 +53,10 @@ let () =
         let toks = Array.of_list (split_ws line) in
         let pos = ref 0 in
         let next () = let t = toks.(!pos) in incr pos; t in
+        (* not modelled (the oracle alone judges): locate_file lookups (first token k..), modules
+           without debug file/id (code-info redirect), inputs with a line in the band where the
+           over-long-line recovery depends on buffer alignment *)
+        if toks.(0).[0] = 'k' || toks.(0) = "N" || toks.(1) = "N" then print_endline "?" else
         let df = unhex (next ()) in
         let id = next () in
         let cf = unhex (next ()) in
@@ -79,6 +83,9 @@ let () =
         let e = mk_env mk cr (z_of_int wlim) true true in
         let race = ref None in
         let servers = ref [] and scripts = ref [] in
+        let fuzzy = ref false in
+        let chk b = if int_of_z (line_class b) = 2 then fuzzy := true in
+        List.iter (function Some b -> chk b | None -> ()) locals;
         for i = 0 to ns - 1 do
           let parts = Array.of_list (String.split_on_char ';' (next ())) in
           let status = int_of_string parts.(0) in
@@ -87,6 +94,7 @@ let () =
             then List.map int_of_string (String.split_on_char ',' (String.sub fr 1 (String.length fr - 1))) else [] in
           let cut = parts.(2) in
           let body = unhex parts.(4) in
+          chk body;
           if i = 0 && parts.(3) <> "-" then
             race := Some (unhex (String.sub parts.(3) 1 (String.length parts.(3) - 1)));
           let blen = List.length body in
@@ -109,6 +117,9 @@ let () =
           if env = "c" then (0, [])
           else if pre = "-" then (0, []) else if pre = "D" then (2, [])
           else (1, unhex (String.sub pre 1 (String.length pre - 1))) in
+        chk pre_c;
+        (match !race with Some b -> chk b | None -> ());
+        if !fuzzy then print_endline "?" else
         let f0 = init_fs (z_of_int pre_kind) pre_c in
         (* the flat event list the future observes: the events of response i are delivered while
            the lookup is at server i; what is left of an abandoned response is never seen *)
